@@ -174,8 +174,22 @@ class Transformer(Visitor):
             if not is_iterable(handle) or o not in handle:
                 return handle._rebuild(**handle.args)
 
-        rebuilt = tuple(self.visit(i, **kwargs) for i in o.children)
+        rebuilt = self._visit_children(o, **kwargs)
         return self._rebuild(o, rebuilt)
+
+    def _visit_children(self, o, **kwargs):
+        """
+        Visit all children of :data:`o`. A tuple of ``bodies`` is aligned with the node's
+        branch selectors, so a body that becomes empty must stay in place as an empty tuple
+        (:meth:`visit_tuple` would strip it and shift the remaining bodies to the wrong branch).
+        """
+        rebuilt = []
+        for name, child in zip(o._traversable, o.children):
+            if name == 'bodies':
+                rebuilt.append(tuple(as_tuple(flatten(as_tuple(self.visit(b, **kwargs)))) for b in child))
+            else:
+                rebuilt.append(self.visit(child, **kwargs))
+        return tuple(rebuilt)
 
     def visit_ScopedNode(self, o, **kwargs):
         """
@@ -277,7 +291,7 @@ class NestedTransformer(Transformer):
             return None
 
         # Recurse to children
-        rebuilt = [self.visit(i, **kwargs) for i in o.children]
+        rebuilt = list(self._visit_children(o, **kwargs))
 
         # Rebuild the node with rebuilt children
         if is_iterable(handle):
